@@ -422,6 +422,24 @@ def rule_window(ck: Check, repo: Repo, folder: Folder, rid: str = "R5") -> None:
                     repo.loc(dfn))
     if not okr:
         r.violation(dq, "CRLF not folded", "CRLF line endings must be folded to LF before tag search", repo.loc(dfn))
+    # what is handed to the tag search is the decoded window with line endings folded - nothing else: a helper that clips,
+    # filters or rewrites the text between decode and return changes what the ignore filter and the tag patterns see
+    rets = [n for n in ast.walk(dfn) if isinstance(n, ast.Return) and n.value is not None]
+    from ..rules import resolve_deep as _rd2
+    for rt in rets:
+        e = _rd2(dfn, rt.value)
+        steps = []
+        while isinstance(e, ast.Call) and isinstance(e.func, ast.Attribute) and e.func.attr == "replace" and len(e.args) == 2 \
+                and all(isinstance(a, ast.Constant) for a in e.args) and (e.args[0].value, e.args[1].value) in (("\r\n", "\n"), ("\r", "\n")):
+            steps.append(e.args[0].value)
+            e = e.func.value
+        plain = isinstance(e, ast.Call) and isinstance(e.func, ast.Attribute) and e.func.attr == "decode"
+        r.instance(dq + ":return", {"folds": steps, "decoded_text_otherwise_untouched": plain})
+        if not plain:
+            r.violation(dq, "the decoded text is altered (beyond folding line endings) before it is returned",
+                        f"`return {ast.unparse(rt.value)[:70]}`: whatever clips, filters or rewrites the window here decides what the ignore-block"
+                        " filter and the tag patterns get to see - a marker or tag beyond a clip point is lost although it lies inside the"
+                        " scanned window", repo.loc(rt))
     # what is decoded is exactly what was read: the window may not be shortened or filtered in between
     from ..rules import resolve_deep as _rdeep
     if len(dec) == 1:
